@@ -48,6 +48,8 @@ class OrderedSlotRestriction(BaseRestriction, metaclass=ABCMeta):
         if used > total:
             tainted_items = {}
             for item in self._container[total:]:
+                if item is None:
+                    continue
                 tainted_items[item] = SlotQuantityErrorData(
                     used=used, total=total)
             raise RestrictionValidationError(tainted_items)
